@@ -919,6 +919,34 @@ def rule_R35_option_filter(text, log):
         pos = rs + 1
 
 
+def rule_R36_range_for_each(text, log):
+    """`(A..B).for_each(|_| STMT)` -> `for _vx_fe in A..B { STMT; }` (definition of Iterator::for_each on a range whose
+    closure ignores the index: STMT runs once per index, in order)"""
+    out = text
+    rx = re.compile(r'\.\s*for_each\s*\(\s*\|\s*_(?:vx\d+)?\s*\|')
+    while True:
+        mask = code_mask(out)
+        mm = next((m for m in rx.finditer(out) if mask[m.start()]), None)
+        if not mm:
+            return out
+        op = out.index('(', mm.start())
+        cl = match_brace(out, mask, op)
+        rs = _recv_start(out, mask, mm.start())
+        recv = out[rs:mm.start()].strip()
+        rmask = code_mask(recv)
+        if not (recv.startswith('(') and '..' in recv and match_brace(recv, rmask, 0) == len(recv) - 1):
+            raise Unsupported('R36: for_each on a receiver that is not a parenthesised range: %s' % norm_ws(recv)[:60])
+        body = out[mm.end():cl].strip()
+        new = 'for _vx_fe in %s { %s; }' % (recv[1:-1].strip(), body)
+        end = cl + 1
+        tail = re.match(r'\s*;', out[end:])
+        if tail:
+            end += tail.end()
+        pad = '\n' * max(0, out[rs:end].count('\n') - new.count('\n'))
+        log.append(('R36', norm_ws(out[rs:end])[:120], norm_ws(new)[:160]))
+        out = out[:rs] + new + pad + out[end:]
+
+
 def rule_R32_or_else(text, log):
     """`OPT.or_else(|| B)` -> `(match OPT { Some(vx_v) => Some(vx_v), None => B })` (definition of Option::or_else)"""
     out = text
@@ -1477,7 +1505,7 @@ class Unit(object):
         self.lost_aids = []
         self.gone_fns = []
         self.late_hints = False
-        self.rules = set(['R1', 'R2', 'ATTR', 'R4', 'R5', 'R6', 'R10', 'R11', 'R14', 'R15', 'R17', 'R22', 'R23', 'R25', 'R26', 'R27', 'R28', 'R29', 'R30', 'R33', 'R35'])
+        self.rules = set(['R1', 'R2', 'ATTR', 'R4', 'R5', 'R6', 'R10', 'R11', 'R14', 'R15', 'R17', 'R22', 'R23', 'R25', 'R26', 'R27', 'R28', 'R29', 'R30', 'R33', 'R35', 'R36'])
         self.unit_props = []
         self.lemmas = []
         self.tmpl_fns = []          # hand-written exec/proof fns in template (name, props)
@@ -1561,6 +1589,8 @@ class Unit(object):
                 text = rule_R33_cmp_min_max(text, log)
             if 'R35' in self.rules:
                 text = rule_R35_option_filter(text, log)
+            if 'R36' in self.rules:
+                text = rule_R36_range_for_each(text, log)
             if 'R34' in self.rules:
                 text = rule_R34_map_err_closure(text, log)
             if 'R31' in self.rules:
